@@ -25,6 +25,7 @@ CODES = {
     10: "Canary-Failed after the sync is not 'was failed or an auto-fail trigger fired'",
     11: "Canary-Paused after the sync is not what the triggers, the previous state and the unpause annotation dictate",
     12: "a failed canary became un-failed",
+    14: "the recorded latest restart moved backwards, or the recorded first restart changed",
     13: "a canary pod was created while the canary is paused or failed",
     20: "harness panic",
 }
